@@ -1,0 +1,50 @@
+//go:build verif
+
+package parser
+
+import "sync/atomic"
+
+// Instrumentation for the verification harness (build tag "verif").
+// It counts parser steps (currentIs / peekIs / nextToken calls) per Parser and
+// aborts the parse with a sentinel panic when a per-parser budget is exceeded,
+// so that a non-terminating parse becomes a deterministic in-process observation.
+
+// VerifBudgetExceeded is the value the parser panics with when its step budget is spent.
+type VerifBudgetExceeded struct {
+	Steps int64
+}
+
+type verifState struct {
+	steps  int64
+	budget int64 // 0 = take the process default on first tick; <0 = unlimited
+}
+
+var verifDefaultBudget atomic.Int64
+
+// VerifSetDefaultBudget sets the step budget for parsers created afterwards (0 = unlimited).
+func VerifSetDefaultBudget(n int64) { verifDefaultBudget.Store(n) }
+
+// VerifSetBudget sets this parser's step budget (0 = unlimited).
+func (p *Parser) VerifSetBudget(n int64) {
+	if n <= 0 {
+		n = -1
+	}
+	p.verif.budget = n
+}
+
+// VerifSteps returns the number of steps this parser has taken.
+func (p *Parser) VerifSteps() int64 { return p.verif.steps }
+
+func (p *Parser) verifTick() {
+	if p.verif.budget == 0 {
+		if d := verifDefaultBudget.Load(); d > 0 {
+			p.verif.budget = d
+		} else {
+			p.verif.budget = -1
+		}
+	}
+	p.verif.steps++
+	if p.verif.budget > 0 && p.verif.steps > p.verif.budget {
+		panic(VerifBudgetExceeded{Steps: p.verif.steps})
+	}
+}
